@@ -91,6 +91,8 @@ def analyze(scenario, log):
     prev_call = [None]                 # pid whose call line was the previous log line (an immediate return follows directly)
     varh = {}                          # (pid or -1 for shared, var) -> handle string
     started = set()
+    pc_expect = {}                     # pid -> (time, log index) of a pattern cancel of the user events that ran while pid was in waite
+    capped = [False]
 
 
     def on_res_freed(r, t):
@@ -108,6 +110,10 @@ def analyze(scenario, log):
         if q in ended:
             return
         ended[q] = (t, how)
+        pe_ = pc_expect.pop(q, None)
+        if pe_ is not None and pe_[0] != t:
+            bad("C04", "process %d was waiting (waite) for a user event when all user events were cancelled by pattern at t=%d; it was "
+                "not resumed then (it ended at t=%d without having returned)" % (q, pe_[0], t))
         believes[q].clear()
         end_times[q].append(t)
         end_events.append((q, t, cur_li[0]))
@@ -275,7 +281,7 @@ def analyze(scenario, log):
                 if val == -3 and op == "waitp":
                     ok = True
                 if val == -4:
-                    ok = ok or any(tt == t and kind in ("ccancel", "ucancel") for (tt, s, kind) in notif[pid])
+                    ok = ok or any(tt == t and kind in ("ccancel", "ucancel", "upcancel") for (tt, s, kind) in notif[pid])
                 if not ok:
                     bad("C04", "%s of process %d returned %d at t=%d but no interrupt, resume, timer, preemption, cancellation or stop "
                         "with that value was addressed to it at that time" % (op, pid, val, t))
@@ -304,6 +310,12 @@ def analyze(scenario, log):
                 else:
                     for tm in timers[pid]:
                         tm["sure"] = False
+            if op == "waite":
+                pe_ = pc_expect.pop(pid, None)
+                if pe_ is not None and pe_[0] != t:
+                    bad("C04", "process %d was waiting (waite) for a user event when all user events were cancelled by pattern at t=%d "
+                        "(cmb_event_pattern_cancel notifies the waiters of every event it cancels, like cmb_event_cancel); it was resumed "
+                        "only at t=%d (value %d)" % (pid, pe_[0], t, val))
             if op == "usched":
                 ev_time[(pid if a[0] < 8 else -1, a[0])] = t + a[1]
             if op == "waite" and val == 0:
@@ -350,6 +362,15 @@ def analyze(scenario, log):
             elif op == "ucancel" and val == 1:
                 for q in range(np_):
                     notif[q].append((t, -4, "ucancel"))
+            elif op == "upcancel":
+                if val >= 1:
+                    for q in range(np_):
+                        notif[q].append((t, -4, "upcancel"))
+                # whoever is suspended in waite now waits for a pending user event (the driver skips waite on anything else), or its
+                # wake-up is already pending at this time: either way it is resumed (or ended) in this very instant
+                for q, (qpc, qt0, qcmd) in open_call.items():
+                    if q != pid and qcmd[0] == "waite" and int(qcmd[1]) >= 8 and q not in ended and q not in pc_expect:
+                        pc_expect[q] = (t, li)
             elif op in ("tadd", "tset"):
                 if op == "tset":
                     timers[pid] = []
@@ -516,6 +537,11 @@ def analyze(scenario, log):
             hist[(w[1], int(w[2]))] = [tuple(int(y) for y in x.split(",")) for x in w[5:5 + n]]
         elif k == "cap":
             events_final = None
+            capped[0] = True
+    if not capped[0] and dump:
+        for q, (te_, li_) in sorted(pc_expect.items()):
+            bad("C04", "process %d was waiting (waite) for a user event when all user events were cancelled by pattern at t=%d "
+                "(cmb_event_pattern_cancel notifies the waiters of every event it cancels, like cmb_event_cancel); it was never resumed" % (q, te_))
 
     quiescent = events_final == 0
     # ---------------- at quiescence ----------------
